@@ -601,9 +601,65 @@ func (n *NativeScript) EvaluateWithGuards(
 	})
 }
 
+// EvaluateWithBounds evaluates the native script against a validity interval
+// whose bounds may be absent, as the ledger's evalTimelock does: a nil
+// validityStart satisfies no invalid-before script (not even bound 0) and a
+// nil validityEnd satisfies no invalid-hereafter script (not even bound
+// MaxUint64); a present bound is compared as is, including a present 0.
+func (n *NativeScript) EvaluateWithBounds(
+	validityStart, validityEnd *uint64,
+	keyHashes map[Blake2b224]bool,
+	guardCredentials []Credential,
+) bool {
+	ctx := nativeScriptEvalContext{
+		noValidityStart:  validityStart == nil,
+		noValidityEnd:    validityEnd == nil,
+		keyHashes:        keyHashes,
+		guardCredentials: newCredentialSet(guardCredentials),
+	}
+	if validityStart != nil {
+		ctx.validityStart = *validityStart
+	}
+	if validityEnd != nil {
+		ctx.validityEnd = *validityEnd
+	}
+	return n.evaluate(ctx)
+}
+
+// ValidityBounds returns the transaction's validity interval start (body key
+// 8) and invalid-hereafter bound (body key 3); nil means the body does not
+// carry the field. Presence is read from the preserved CBOR of the decoded
+// transaction, because the accessors return 0 for an absent field as well as
+// for a present 0. For a transaction without preserved bytes a zero value
+// counts as absent.
+func ValidityBounds(tx Transaction) (*uint64, *uint64) {
+	start, end := tx.ValidityIntervalStart(), tx.TTL()
+	hasStart, hasEnd := start != 0, end != 0
+	if raw := tx.Cbor(); len(raw) > 0 {
+		var parts []cbor.RawMessage
+		if _, err := cbor.Decode(raw, &parts); err == nil && len(parts) > 0 {
+			var body map[uint64]cbor.RawMessage
+			if _, err := cbor.Decode(parts[0], &body); err == nil {
+				_, hasStart = body[8]
+				_, hasEnd = body[3]
+			}
+		}
+	}
+	var retStart, retEnd *uint64
+	if hasStart {
+		retStart = &start
+	}
+	if hasEnd {
+		retEnd = &end
+	}
+	return retStart, retEnd
+}
+
 type nativeScriptEvalContext struct {
 	validityStart    uint64
 	validityEnd      uint64
+	noValidityStart  bool
+	noValidityEnd    bool
 	keyHashes        map[Blake2b224]bool
 	guardCredentials map[credentialKey]bool
 }
@@ -668,13 +724,13 @@ func (n *NativeScript) evaluate(ctx nativeScriptEvalContext) bool {
 		// Transaction is only valid at or after this slot
 		// For native scripts, we check against the transaction's validity interval
 		// The tx must start at or after the script's slot requirement
-		return ctx.validityStart >= s.Slot
+		return !ctx.noValidityStart && ctx.validityStart >= s.Slot
 
 	case *NativeScriptInvalidHereafter:
 		// Transaction is only valid before this slot
 		// The tx must end at or before the script's slot requirement
 		// TTL = X means tx valid at slots [start, X), which is entirely within [0, X)
-		return ctx.validityEnd <= s.Slot
+		return !ctx.noValidityEnd && ctx.validityEnd <= s.Slot
 
 	case *NativeScriptRequireGuard:
 		if ctx.guardCredentials == nil {
